@@ -245,6 +245,76 @@ func findContainments(fn *ssa.Function) []Containment {
 				out = append(out, k)
 				continue
 			}
+			// joined form: the Rel result (position below the root) joined with something else is tested
+			// for "..": where x leads from the root
+			var joined ssa.Value
+			if refs := rel.Referrers(); refs != nil {
+				for _, r := range *refs {
+					// variadic Join: the extract is stored into the argument array
+					if st, ok := r.(*ssa.Store); ok {
+						if ia, ok := st.Addr.(*ssa.IndexAddr); ok {
+							if al, ok := ia.X.(*ssa.Alloc); ok {
+								if ar := al.Referrers(); ar != nil {
+									for _, q := range *ar {
+										if sl, ok := q.(*ssa.Slice); ok {
+											if sr := sl.Referrers(); sr != nil {
+												for _, u := range *sr {
+													if jc, ok := u.(*ssa.Call); ok && isFunc(calleeObj(jc), "path/filepath", "Join") {
+														joined = jc
+													}
+												}
+											}
+										}
+									}
+								}
+							}
+						}
+					}
+				}
+			}
+			if joined != nil {
+				_, jEqF := condEdges(fn, func(c ssa.Value) bool {
+					bo, ok := c.(*ssa.BinOp)
+					if !ok || bo.Op != token.EQL {
+						return false
+					}
+					s, ok1 := constString(bo.Y)
+					return ok1 && s == ".." && bo.X == joined
+				})
+				jNeT, _ := condEdges(fn, func(c ssa.Value) bool {
+					bo, ok := c.(*ssa.BinOp)
+					if !ok || bo.Op != token.NEQ {
+						return false
+					}
+					s, ok1 := constString(bo.Y)
+					return ok1 && s == ".." && bo.X == joined
+				})
+				_, jHpF := condEdges(fn, func(c ssa.Value) bool {
+					cl, ok := c.(*ssa.Call)
+					if !ok || !isFunc(calleeObj(cl), "strings", "HasPrefix") || cl.Call.Args[0] != joined {
+						return false
+					}
+					s, ok1 := constString(cl.Call.Args[1])
+					return ok1 && (s == "../" || s == `..\`)
+				})
+				jnd := append(jEqF, jNeT...)
+				if len(jnd) > 0 || len(jHpF) > 0 {
+					okE2, _ := okEdgesOfCall(call)
+					k := Containment{Fn: fn, Kind: "reljoin", Subject: joined, Root: call.Call.Args[0], At: call, Conj: [][]Edge{okE2, jnd, jHpF}}
+					switch {
+					case len(okE2) == 0:
+						k.Why = "error of filepath.Rel is not tested"
+					case len(jnd) == 0:
+						k.Why = `the path from the root is not compared with ".."`
+					case len(jHpF) == 0:
+						k.Why = `the path from the root is not tested for the "../" prefix`
+					default:
+						k.Sound, k.Why = true, `the path from the root (Rel result joined with the target) is neither ".." nor starts with "../"`
+					}
+					out = append(out, k)
+					continue
+				}
+			}
 			if len(notDotDot) == 0 && len(hpF) == 0 {
 				continue // Rel used to compute a name, not to decide containment
 			}
